@@ -81,6 +81,10 @@ def g_Vpd86(rng):
     return vpd(rng, 0x86, edge(rng, 60))
 
 
+def g_Vpd89(rng):
+    return vpd(rng, 0x89, edge(rng, 4) + rb(rng, 564))
+
+
 def g_VpdB0(rng):
     return vpd(rng, 0xB0, edge(rng, 60))
 
